@@ -16,27 +16,28 @@ PID = "C30"
 def wf_cls() -> type:
     async def start(self, ctx, ev, inv):  # noqa: ANN001
         tag = ev.get("tag")
-        self._active.add(tag)
+        nth = self._order.count(tag)  # (a run resumed from a snapshot executes the same StartEvent again)
+        self._active.append(tag)
         self._peak = max(self._peak, len(self._active))
         self._order.append(tag)
         try:
-            await gate(f"run{tag}")
+            await gate(f"run{tag}" + (f"#{nth + 1}" if nth else ""))
         finally:
-            self._active.discard(tag)
+            self._active.remove(tag)
         return StopEvent(result=tag)
 
     return make_workflow("Limited", [make_step("start", [StartEvent], [StopEvent], start)])
 
 
 def execute(ex: Execution, n_runs: int, limit: int | None, second_instance: bool, hard_cancel: bool,
-            staggered: bool) -> tuple[Any, list[Any]]:
+            staggered: bool, resumed: bool = False) -> tuple[Any, list[Any]]:
     with EngineExec(ex, RunConfig()) as e:
         rt = MonRuntime(BasicRuntime())
         cls = wf_cls()
 
         def mk() -> Any:
             wf = cls(timeout=None, runtime=rt, num_concurrent_runs=limit)
-            wf._active, wf._peak, wf._order = set(), 0, []
+            wf._active, wf._peak, wf._order = [], 0, []
             return wf
 
         wf1 = mk()
@@ -71,12 +72,30 @@ def execute(ex: Execution, n_runs: int, limit: int | None, second_instance: bool
                         return
 
             scripts.append([Action("hard-cancel a queued run", do_cancel)])
+        expected = set(tags1) | ({"b0"} if wf2 is not None else set())
+        if resumed:
+            def do_resume() -> None:
+                # the context of a run that is executing its step is serialized and run again on the same instance (from
+                # Context.from_dict): that is one more run of the instance and needs a slot like any other
+                import json
+
+                from workflows import Context
+
+                for t in tags1:
+                    if t in wf1._active and f"{t}r" not in handlers:
+                        snap = json.loads(json.dumps(handlers[t].ctx.to_dict()))
+                        handlers[f"{t}r"] = wf1.run(ctx=Context.from_dict(wf1, snap), run_id=f"run-{t}-resumed")
+                        expected.add(f"{t}r")
+                        return
+
+            scripts.append([Action("resume a snapshot of an executing run", do_resume)])
         for sc in scripts:
             e.add_script(sc)
-        expected = set(tags1) | ({"b0"} if wf2 is not None else set())
         e.cfg.stop_when = lambda hh: all(t in handlers and handlers[t].is_done() for t in expected)
         v: list[Any] = []
         w = {"limit": limit, "hard_cancel": hard_cancel}
+        if resumed:
+            w["with_resumed_run"] = True
 
         def on_q(hh: Any) -> None:
             if limit is not None and len(wf1._active) > limit:
@@ -113,7 +132,7 @@ def execute_successor(ex: Execution, old_limit: int, new_limit: int) -> tuple[An
 
         def mk(limit: int) -> Any:
             wf = cls(timeout=None, runtime=rt, num_concurrent_runs=limit)
-            wf._active, wf._peak, wf._order = set(), 0, []
+            wf._active, wf._peak, wf._order = [], 0, []
             return wf
 
         # phase 1: a batch of short-lived instances, one finished run each (default schedule: phase 1 is set-up, not explored)
@@ -196,6 +215,11 @@ def programs(tier: str) -> list[Program]:
                           max_dev=(4 if q else None)))
         ps.append(Program(f"hard_cancel(n=3,limit={limit})", {}, (lambda ex, limit=limit: execute(ex, 3, limit, False, True, False)),
                           max_dev=(4 if q else None)))
+    for n, limit in (((2, 1), (2, 2)) if q else ((2, 1), (2, 2), (3, 1), (3, 2))):
+        for staggered in (False, True):
+            ps.append(Program(f"runs_plus_resumed_snapshot(n={n},limit={limit},staggered={staggered})", {"n": n, "limit": limit, "resumed": True},
+                              (lambda ex, n=n, limit=limit, st=staggered: execute(ex, n, limit, False, False, st, True)),
+                              max_dev=(4 if q else None)))
     for old_limit, new_limit in ((3, 1), (1, 2)):
         ps.append(Program(f"successor_instance(old_limit={old_limit},limit={new_limit})", {"old": old_limit, "limit": new_limit},
                           (lambda ex, o=old_limit, nl=new_limit: execute_successor(ex, o, nl))))
@@ -205,7 +229,7 @@ def programs(tier: str) -> list[Program]:
 
 
 RULE = ("2-4 runs of one workflow instance with num_concurrent_runs 1..3 (and unlimited), started together or "
-        "staggered, a second instance, hard cancel of a queued run, a successor instance created after earlier instances with another "
+        "staggered, a second instance, hard cancel of a queued run, one more run started from the serialized context of an executing run, a successor instance created after earlier instances with another "
         "limit were garbage-collected (address reuse is reported in the evidence) x all start/finish interleavings; the number of "
         "runs executing steps is checked in every quiescent state, every non-cancelled run must execute, a second "
         "instance must never wait; non-trivial = at least one schedule deviation")
